@@ -322,7 +322,10 @@ fn c01_gen_cycle(seed: u64, run: u64, _thorough: bool) -> Plan {
     let horizon = t + 20_000_000;
     plan.push(0, 3, Op::Mark { name: "heal".into() });
     plan.params.insert("end_when_quiescent".into(), 1.0);
-    let period = r.range(500, 2000);
+    // step periods below about 1.85 ms often settle at one small frame per step, and the stream
+    // does not get round the id space within the horizon (measured; section 11)
+    let drawn = r.range(500, 2000);
+    let period = if drawn >= 1850 { drawn } else { 1850 + drawn % 550 };
     plan.push(500, 3, Op::StepEvery { ep: 0, period_us: period, until_us: horizon });
     plan.push(700, 3, Op::StepEvery { ep: 1, period_us: period, until_us: horizon });
     plan.adversary = "cycle_replayer".into();
